@@ -7,3 +7,4 @@ import Proofs.C16
 #print axioms C16.keyheader_level_cover
 #print axioms C16.columns_align
 #print axioms C16.no_trailing_blanks_partial
+#print axioms C16.text_csv_same_view_partial
